@@ -1212,7 +1212,10 @@ pub fn decode_match(reader: &mut BitReader) -> Result<(Match, usize)> {
         }
         CompressionType::Far2Long => {
             let distance = reader.read_bits(16)? as u16;
-            let length = decode_variable_length(reader)? as u16 + MIN_FAR2_LONG_LENGTH as u16; // Add offset back
+            let length = decode_variable_length(reader)?
+                .checked_add(MIN_FAR2_LONG_LENGTH as u32)
+                .and_then(|l| u16::try_from(l).ok())
+                .ok_or_else(|| ZiporaError::invalid_data("Far2Long length out of range"))?; // Add offset back
             Match::Far2Long { distance, length }
         }
         CompressionType::Far3Long => {
